@@ -223,6 +223,8 @@ def make_case(ctx, g):
     docs = []
     for _ in range(2):
         d, _scopes = b.random_document(n_records=g.rng.randint(1, 5))
+        if g.chance(0.15):
+            b.many_defaults(d)
         docs.append(d)
     free = []
     if g.chance(0.4):
